@@ -156,6 +156,9 @@ Arguments sconfig : clear implicits.
 (* the communication skeleton extracted from subproc_vec_env.py (translate/skeleton.py -> Gen/Frag_Subproc.v) *)
 Inductive cmdkind := KStep | KReset | KRender | KClose | KGetSpaces | KEnvMethod | KGetAttr | KHasAttr | KSetAttr | KIsWrapped.
 (* over_all = iterates self.remotes; otherwise target_remotes = _get_target_remotes(indices) *)
+(* what a SendEach loop sends to worker i: the i-th action / (seeds[i], options[i]) / the caller's arguments (the same for every
+   target) / anything else *)
+Inductive payload := PayOwnAction | PayOwnSeedOption | PayCallArgs | PayOther.
 (* Unrecognised = the extractor met pipe traffic outside these two shapes (no lemma accepts it) *)
 Inductive phase := SendEach (over_all : bool) (k : cmdkind) | RecvEach (over_all : bool) | Unrecognised.
 
@@ -235,9 +238,13 @@ Fixpoint calls_methods (n : nat) (seeds opts : list (option Z)) (cs : list call)
   | KaEnvMethod a ts :: r => (ts, fun _ => CmdEnvMethod a) :: calls_methods n seeds opts r
   | KaIsWrapped ts :: r => (ts, fun _ => CmdIsWrapped) :: calls_methods n seeds opts r
   end.
+(* legal calls: indices in range, one action / one options entry per sub-environment (a shorter action list is an
+   illegal call: the real DummyVecEnv raises IndexError, the real SubprocVecEnv blocks - outside the property's quantifier) *)
 Definition call_targets_ok (n : nat) (c : call) : Prop :=
   match c with
   | KaGetAttr ts | KaSetAttr _ ts | KaEnvMethod _ ts | KaIsWrapped ts => Forall (fun t => t < n) ts
+  | KaStep acts => length acts = n
+  | KaSetOptions os => length os = n
   | _ => True
   end.
 
